@@ -40,6 +40,17 @@ class C14(XsProp):
                 cs.append('xs limits %s | eval %s | dump | limits 1000 - - | eval %s | stack' % (lim, h, probe))
             else:
                 cs.append('xs limits %s | compile %s | stepcheck 2000 | dump | limits 1000 - - | eval %s | stack' % (lim, h, probe))
+        # a meta block runs on the same physical stack: with k items already there it may push only S - k more
+        self.meta_expect = {}
+        for i in range(n // 4):
+            k = rng.randint(0, 6)
+            S = rng.randint(0, 7)
+            m = rng.randint(1, 4)
+            pre = ' '.join(str(x) for x in range(k))
+            block = '#( %s %s #)' % (' '.join(str(10 + x) for x in range(m)), 'drop ' * m)
+            case = 'xs limits 2000 - - | eval %s | limits 2000 %d - | eval %s | dump' % (hexsrc(pre) if pre else hexsrc('depth drop'), S, hexsrc(block))
+            cs.append(case)
+            self.meta_expect[case] = (k, S, m)
         # limits changed between evaluations on one interpreter
         for i in range(n // 5):
             a, b = rng.choice(progs_), rng.choice(progs_)
@@ -57,7 +68,7 @@ class C14(XsProp):
         for c, o in zip(cases, impl):
             steps = c.split(' | ')
             outs = o.split(' | ')
-            if len(steps) != len(outs):
+            if len(steps) != len(outs) or c in getattr(self, 'meta_expect', {}):
                 continue
             lim = None
             base_ds = 0
@@ -98,6 +109,20 @@ class C14(XsProp):
             if len(steps) >= 2 and steps[-1] == 'stack' and 'limits 1000 - -' in c:
                 if outs[-2] != 'ok' and 'ELimit' in outs[-2]:
                     fails.append(('case: %s\nresult: %s' % (c, o[:1500]), 'still failing with a limit error after the limits were raised'))
+        for c, o in zip(cases, impl):
+            if c in getattr(self, 'meta_expect', {}):
+                k, S, m = self.meta_expect[c]
+                ou = o.split(' | ')
+                res = ou[3]
+                n += 1
+                # the block's first push happens with k items on the stack: it must be refused iff k >= S,
+                # a later one iff k + j >= S
+                must_fail = k + m > S
+                if must_fail and res == 'ok':
+                    fails.append(('case: %s\nresult: %s' % (c, o[:800]),
+                                  'a meta block pushed %d values on a stack of %d under a stack limit of %d' % (m, k, S)))
+                if not must_fail and 'ELimit' in res:
+                    fails.append(('case: %s\nresult: %s' % (c, o[:800]), 'limit error although %d + %d <= %d' % (k, m, S)))
         if cases:
             samples.append(dict(case=cases[0], result=impl[0][:300]))
         return n, fails, samples, dict(limit_checks=n, limit_errors_seen=hit)
